@@ -173,6 +173,10 @@ def _parse_common(text: str, **options: Any) -> datetime | date | time:
     # Grabbing hh:mm:ss
     hour = int(m.group("hour"))
 
+    if not m.group("minute"):
+        # The pattern lets the minutes be omitted ("12:"), which is not a time
+        raise ParserError("Invalid datetime string")
+
     minute = int(m.group("minute"))
 
     second = int(m.group("second")) if m.group("second") else 0
